@@ -623,7 +623,20 @@ pub fn gen_ext_known(t: &mut Tape, idx: usize, budget: usize) -> MExt {
             if n > 6 {
                 return MExt::Alpn((0..n).map(|i| vec![b'h'; i % 2]).collect());
             }
-            MExt::Alpn((0..n).map(|_| if t.chance(90) { t.utf8_text(b.min(255)) } else { t.small_blob(b.min(255) / 2) }).collect())
+            let mut l: Vec<Vec<u8>> = Vec::new();
+            for _ in 0..n {
+                let x = if !l.is_empty() && t.chance(30) {
+                    l[l.len() - 1].clone()
+                } else if t.chance(60) {
+                    t.pick(&[&b"h2"[..], b"http/1.1", b"h3", b"\xca\xca", b"\xea\xea", b"caf\xc3", b"\xff"]).to_vec()
+                } else if t.chance(90) {
+                    t.utf8_text(b.min(255))
+                } else {
+                    t.small_blob(b.min(255) / 2)
+                };
+                l.push(x);
+            }
+            MExt::Alpn(l)
         }
         18 => MExt::Sct(if t.chance(80) { None } else { Some(t.small_blob(b.saturating_sub(2).min(500))) }),
         21 => MExt::Padding(t.blob(b.min(600))),
@@ -691,10 +704,10 @@ pub fn gen_ext(t: &mut Tape, budget: usize) -> MExt {
 
 pub fn gen_ext_list(t: &mut Tape, max_n: usize, budget: usize) -> Vec<MExt> {
     let n = t.small(max_n);
-    let mut v = Vec::new();
+    let mut v: Vec<MExt> = Vec::new();
     let mut left = budget;
     for _ in 0..n {
-        let x = gen_ext(t, left.min(400));
+        let x = if !v.is_empty() && t.chance(25) { v[v.len() - 1].clone() } else { gen_ext(t, left.min(400)) };
         let l = x.to_bytes().len();
         if l > left {
             break;
@@ -1257,13 +1270,14 @@ pub fn gen_sct_list(t: &mut Tape) -> Vec<MSct> {
     }
     let n = t.small(8);
     let mut left = 65535usize;
-    let mut v = Vec::new();
+    let mut v: Vec<MSct> = Vec::new();
     for _ in 0..n {
         if left < 49 {
             break;
         }
         let b = if t.chance(30) { left - 2 } else { (left - 2).min(400) };
-        let s = gen_sct(t, b);
+        // now and then the same entry again, next to its twin (a list is a list: equal neighbours are kept)
+        let s = if !v.is_empty() && t.chance(40) { v[v.len() - 1].clone() } else { gen_sct(t, b) };
         let mut e = Enc::new();
         s.encode(&mut e);
         if e.buf.len() > left {
